@@ -88,11 +88,30 @@ func enumVals(lo, hi int) []Val {
 
 // ---- strings / bytes ----
 
-func rep(s string, n int) string { return strings.Repeat(s, n) }
+var repCache = map[string]string{}
+
+// rep is strings.Repeat, memoised (the long values are requested for every generated packet).
+func rep(s string, n int) string {
+	if n < 64 {
+		return strings.Repeat(s, n)
+	}
+	k := fmt.Sprintf("%s/%d", s, n)
+	if r, ok := repCache[k]; ok {
+		return r
+	}
+	r := strings.Repeat(s, n)
+	repCache[k] = r
+	return r
+}
 
 // stringVals returns the string alphabet limited to max characters (UTF-16 units, the unit
 // vanilla limits strings in); max<=0 means the protocol default 32767.
 var stringValsCache = map[int][]Val{}
+
+// Thorough is set by the harness: the quick tier leaves out the 16383- and 32767-long strings and
+// byte arrays (it keeps 127/128 and 16384, i.e. one value on each side of every VarInt length
+// boundary except 16383), which are the bulk of the allocation work.
+var Thorough bool
 
 func stringVals(max int) []Val {
 	if max <= 0 {
@@ -123,6 +142,9 @@ func stringVals0(max int) []Val {
 	}
 	var out []Val
 	for _, c := range cands {
+		if !Thorough && (c.chars == 16383 || c.chars == 32767) {
+			continue
+		}
 		if c.chars <= max {
 			out = append(out, v("str:"+c.label, c.s))
 		}
@@ -156,6 +178,9 @@ func bytesVals(max int) []Val {
 	}
 	out := []Val{vf("bytes:empty", func() any { return []byte(nil) }), vf("bytes:1", func() any { return []byte{0x2A} })}
 	for _, n := range []int{2, 127, 128, 255, 256, 16383, 16384, 32767} {
+		if !Thorough && (n == 16383 || n == 32767) {
+			continue
+		}
 		if n <= max {
 			out = append(out, bytesVal(fmt.Sprintf("bytes:%d", n), n))
 		}
